@@ -440,29 +440,39 @@ class JsonCommandField(cabc.Sequence):
         if not self.hist.remember_history:
             return ""
 
-        size = len(self)
         if isinstance(key, slice):
-            return [self[i] for i in range(*key.indices(size))]
+            return [self[i] for i in range(*key.indices(len(self)))]
         elif not isinstance(key, int):
             raise IndexError("JsonCommandField may only be indexed by int or slice.")
-        elif size == 0:
-            raise IndexError("JsonCommandField is empty.")
-        # now we know we have an int
-        key = size + key if key < 0 else key  # ensure key is non-negative
-        bufsize = len(self.hist.buffer)
-        if size - bufsize <= key:  # key is in buffer
-            return self.hist.buffer[key + bufsize - size].get(self.field, self.default)
-        # now we know we have to go into the file
+        # Flushers that are still queued may skip commands ($HISTCONTROL),
+        # which changes len() and what is in the file.  Decide where the key
+        # lives only once they are done, and leave the queue on every path -
+        # an entry left behind blocks all later flushes and reads.
         queue = self.hist._queue
         queue.append(self)
         with self.hist._cond:
-            self.hist._cond.wait_for(self.i_am_at_the_front)
-            with open(self.hist.filename, newline="\n", encoding="utf-8") as f:
-                lj = xlj.LazyJSON(f, reopen=False)
-                rtn = lj["cmds"][key].get(self.field, self.default)
-                if isinstance(rtn, xlj.LJNode):
-                    rtn = rtn.load()
-            queue.popleft()
+            try:
+                self.hist._cond.wait_for(self.i_am_at_the_front)
+                size = len(self)
+                if size == 0:
+                    raise IndexError("JsonCommandField is empty.")
+                key = size + key if key < 0 else key  # ensure key is non-negative
+                if not 0 <= key < size:
+                    raise IndexError("JsonCommandField index out of range.")
+                bufsize = len(self.hist.buffer)
+                if size - bufsize <= key:  # key is in buffer
+                    return self.hist.buffer[key + bufsize - size].get(
+                        self.field, self.default
+                    )
+                # now we know we have to go into the file
+                with open(self.hist.filename, newline="\n", encoding="utf-8") as f:
+                    lj = xlj.LazyJSON(f, reopen=False)
+                    rtn = lj["cmds"][key].get(self.field, self.default)
+                    if isinstance(rtn, xlj.LJNode):
+                        rtn = rtn.load()
+            finally:
+                queue.remove(self)
+                self.hist._cond.notify_all()
         return rtn
 
     def i_am_at_the_front(self):
